@@ -235,6 +235,205 @@ def as_items(v):
     return [('SYM', render(v))]
 
 
+# --------------------------------------------------------------------------------------------- linear texts / slice algebra
+def _strip_parens(t):
+    t = t.strip()
+    while t.startswith('(') and t.endswith(')'):
+        d = 0
+        for i, ch in enumerate(t):
+            if ch in '([{':
+                d += 1
+            elif ch in ')]}':
+                d -= 1
+                if d == 0 and i < len(t) - 1:
+                    return t
+        t = t[1:-1].strip()
+    return t
+
+
+def lin_parse(t):
+    """'(a + (b - 2))' -> ({'a': 1, 'b': 1}, -2): integer-linear form over opaque atoms (texts)."""
+    t = _strip_parens(t)
+    try:
+        return {}, int(t)
+    except ValueError:
+        pass
+    d = 0
+    split = None
+    for i in range(len(t) - 1, -1, -1):
+        ch = t[i]
+        if ch in ')]}':
+            d += 1
+        elif ch in '([{':
+            d -= 1
+        elif d == 0 and ch in '+-' and i >= 2 and t[i - 1] == ' ' and i + 1 < len(t) and t[i + 1] == ' ':
+            # a lower-precedence operator to the left? (none: + and - are the lowest we render) -> split here
+            split = i
+            break
+    if split is not None:
+        # make sure no other top-level operator of lower/equal precedence class mixes in (e.g. '<<', '|', 'if')
+        left, right = t[:split - 1], t[split + 2:]
+        if not re.search(r' (<<|>>|\||&|\^|if|and|or|==|!=|<|>|<=|>=|in|is) ', _toplevel(t)):
+            a, b = lin_parse(left), lin_parse(right)
+            sign = 1 if t[split] == '+' else -1
+            terms = dict(a[0])
+            for k, v in b[0].items():
+                terms[k] = terms.get(k, 0) + sign * v
+            return {k: v for k, v in terms.items() if v != 0}, a[1] + sign * b[1]
+    if t.startswith('-') and not t[1:2].isspace():
+        inner = lin_parse(t[1:])
+        return {k: -v for k, v in inner[0].items()}, -inner[1]
+    return {t if _atomic(t) else '(%s)' % t: 1}, 0
+
+
+def _toplevel(t):
+    out, d = [], 0
+    for ch in t:
+        if ch in '([{':
+            d += 1
+        elif ch in ')]}':
+            d -= 1
+        out.append(ch if d == 0 else '_')
+    return ''.join(out)
+
+
+def _atomic(t):
+    return ' ' not in _toplevel(t)
+
+
+def lin_render(terms, const):
+    pos = sorted(k for k, v in terms.items() if v > 0)
+    neg = sorted(k for k, v in terms.items() if v < 0)
+    parts = []
+    for k in pos:
+        parts.append(('+', k if terms[k] == 1 else '(%d * %s)' % (terms[k], k)))
+    for k in neg:
+        parts.append(('-', k if terms[k] == -1 else '(%d * %s)' % (-terms[k], k)))
+    if const > 0 or (const == 0 and not parts):
+        parts.append(('+', str(const)))
+    elif const < 0:
+        parts.append(('-', str(-const)))
+    if parts[0][0] == '-':
+        if len(parts) == 1 and not terms:
+            return '-%s' % parts[0][1]
+        # lead with a positive part when there is one, else render as negation
+        head = next((p for p in parts if p[0] == '+'), None)
+        if head is not None:
+            parts.remove(head)
+            parts.insert(0, head)
+        else:
+            return '-%s' % lin_render({k: -v for k, v in terms.items()}, -const)
+    out = parts[0][1]
+    for sgn, txt in parts[1:]:
+        out += ' %s %s' % (sgn, txt)
+    return out if len(parts) == 1 else '(%s)' % out
+
+
+def lin_add(a, b, sign=1):
+    """Canonical text of a + b (or a - b); '' counts as 0."""
+    ta, tb = lin_parse(a or '0'), lin_parse(b or '0')
+    terms = dict(ta[0])
+    for k, v in tb[0].items():
+        terms[k] = terms.get(k, 0) + sign * v
+    return lin_render({k: v for k, v in terms.items() if v != 0}, ta[1] + sign * tb[1])
+
+
+def lin_norm(t):
+    if t == '':
+        return ''
+    terms, c = lin_parse(t)
+    return lin_render(terms, c)
+
+
+def _pos(t):
+    """'' -> ('O',) ; negative integer -> ('E', k) (k octets before the end) ; otherwise ('S', text) from the start."""
+    if t == '':
+        return ('O',)
+    terms, c = lin_parse(t)
+    if not terms and c < 0:
+        return ('E', -c)
+    return ('S', lin_render(terms, c))
+
+
+def _unpos(p, lo):
+    if p[0] == 'O':
+        return ''
+    if p[0] == 'E':
+        return str(-p[1])
+    return '' if (lo and p[1] == '0') else p[1]
+
+
+def compose_slice(a, b, c, d):
+    """X[a:b][c:d] == X[lo:hi] under the in-bounds reading (every index lies inside the octets it addresses).
+    Returns (lo, hi) texts or None when the two cannot be merged."""
+    A, B, C, D = _pos(a), _pos(b), _pos(c), _pos(d)
+    # lower bound
+    if C[0] == 'O':
+        lo = A
+    elif C[0] == 'S':
+        if A[0] == 'O':
+            lo = C
+        elif A[0] == 'S':
+            lo = ('S', lin_add(A[1], C[1]))
+        else:
+            ct, cc = lin_parse(C[1])
+            if ct or cc >= A[1]:
+                return None
+            lo = ('E', A[1] - cc)
+    else:
+        if B[0] == 'O':
+            lo = C
+        elif B[0] == 'E':
+            lo = ('E', B[1] + C[1])
+        else:
+            lo = ('S', lin_add(B[1], str(C[1]), -1))
+    # upper bound
+    if D[0] == 'O':
+        hi = B
+    elif D[0] == 'S':
+        if A[0] == 'O':
+            hi = D
+        elif A[0] == 'S':
+            hi = ('S', lin_add(A[1], D[1]))
+        else:
+            dt, dc = lin_parse(D[1])
+            if dt or dc > A[1]:
+                return None
+            hi = ('O',) if dc == A[1] else ('E', A[1] - dc)
+    else:
+        if B[0] == 'O':
+            hi = D
+        elif B[0] == 'E':
+            hi = ('E', B[1] + D[1])
+        else:
+            hi = ('S', lin_add(B[1], str(D[1]), -1))
+    return _unpos(lo, True), _unpos(hi, False)
+
+
+def mk_slice(inner, lo, hi):
+    """The item for inner[lo:hi]; a slice of a slice is flattened (canonical form shared by `del buf[:n]` consumption,
+    nested slicing and offset arithmetic).  `inner` is a list of items or a rendered text."""
+    lo, hi = lin_norm(lo), lin_norm(hi)
+    if lo == '0':
+        lo = ''
+    if isinstance(inner, list):
+        its = merge_consts(inner)
+        if len(its) == 1 and its[0][0] == 'SLICE':
+            r = compose_slice(its[0][2], its[0][3], lo, hi)
+            if r is not None:
+                return ('SLICE', its[0][1], r[0], r[1])
+        inner = its
+    return ('SLICE', inner, lo, hi)
+
+
+def sl(base, *ranges):
+    """Rendered canonical text of base[lo1:hi1][lo2:hi2]...  (for rule expectations: spelling-independent)."""
+    it = None
+    for lo, hi in ranges:
+        it = mk_slice([it] if it is not None else base, str(lo), str(hi))
+    return render_item(it)
+
+
 # --------------------------------------------------------------------------------------------- state
 class State(object):
     def __init__(self):
@@ -436,7 +635,7 @@ class Frame(object):
                         n = '1'
                 if n is not None:
                     inner = merge_consts(cur.items) if isinstance(cur, Bytes) else render(cur)
-                    st.env[t.value.id] = Bytes([('SLICE', inner, n, '')])
+                    st.env[t.value.id] = Bytes([mk_slice(inner, n, '')])
         return [(st, 'normal')]
 
     def st_FunctionDef(self, node, st):
@@ -1263,8 +1462,8 @@ class Frame(object):
                         return Bytes([('C', its[0][1][lo_i:hi_i])])
                     except ValueError:
                         pass
-                return Bytes([('SLICE', merge_consts(base.items), lo, hi)])
-            return Bytes([('SLICE', render(base), lo, hi)])
+                return Bytes([mk_slice(merge_consts(base.items), lo, hi)])
+            return Bytes([mk_slice(render(base), lo, hi)])
         idx = self.ev(sl, st)
         if isinstance(base, ListV) and isinstance(idx, Const) and isinstance(idx.value, int):
             try:
